@@ -97,4 +97,101 @@ let drv_pure () =
     | ["sp"; root; rel; ver; k] ->
         let sp = iter_n (int_of_string k) increment (create_store_path (str_tok root) (str_tok rel) (str_tok ver)) in
         Printf.printf "sp %s\n" (tok_str (current_path sp))
+    | ["cpp"; a; b] -> Printf.printf "cpp %d\n" (int_of_nat (common_len (str_tok a) (str_tok b)))
+    | "params" :: args ->
+        (match parse_params (List.map str_tok args) with
+         | Inl e ->
+             let m = (match e with
+                      | PUnknown _ -> "An unknown option has been passed"
+                      | PRedefined _ -> "An option has been passed more than once, but it cannot have multiple values"
+                      | PStray _ -> "An option without a required value has been passed") in
+             Printf.printf "params error %s\n" (hex m)
+         | Inr p ->
+             let o x = match x with Some s -> tok_str s | None -> "-" in
+             Printf.printf "params ok help=%d version=%d c=%s d=%s w=%s e=%s\n"
+               (if p.p_help then 1 else 0) (if p.p_version then 1 else 0) (o p.p_cfg) (o p.p_drop)
+               (String.concat "" (List.map (fun s -> tok_str s ^ ",") p.p_w))
+               (String.concat "" (List.map (fun s -> tok_str s ^ ",") p.p_e)))
+    | "bm" :: g :: ops ->
+        let b = ref (bm_create (nat_of_int (int_of_string g))) in
+        let out = Buffer.create 16 in
+        List.iter (fun o ->
+          let bit = nat_of_int (int_of_string (String.sub o 1 (String.length o - 1))) in
+          match o.[0] with
+          | 's' -> b := bm_set bit !b
+          | 'u' -> b := bm_unset bit !b
+          | _ -> Buffer.add_string out (if bm_get bit !b then " 1" else " 0")) ops;
+        Printf.printf "bm%s\n" (Buffer.contents out)
     | _ -> failwith ("pure: bad line: " ^ String.concat " " toks))
+
+(* ---------- main driver ---------- *)
+let sw_of t = match t with "ok" -> SwOk | "fail" -> SwFail | _ -> SwNoEffect
+let b_ t = t <> "0"
+
+let top_id t = match t with
+  | T_parse -> "parse" | T_fan_init -> "faninit" | T_mount_list -> "mountlist" | T_watch -> "watch"
+  | T_drop -> "drop" | T_load -> "load" | T_poll -> "poll" | T_read -> "read" | T_version -> "version"
+  | T_overflow -> "overflow" | T_exec -> "exec" | T_write -> "write" | T_timeout -> "timeout"
+
+let drv_main () =
+  let args = ref [] and real = ref [] and mounted = ref [] in
+  let fan = ref true and minfo = ref true and mount_ok = ref true and markfail = ref (-1) and load = ref true in
+  let stat = ref (Some (N0, N0)) in
+  let uid = ref N0 and gid = ref N0 and groups = ref 1 in
+  let sg = ref SwOk and sgid = ref SwOk and suid = ref SwOk in
+  let self = ref (n_of_string "4242") in
+  let slots = ref [] in
+  let reset () =
+    args := []; real := []; mounted := []; fan := true; minfo := true; mount_ok := true; markfail := -1; load := true;
+    stat := Some (N0, N0); uid := N0; gid := N0; groups := 1; sg := SwOk; sgid := SwOk; suid := SwOk;
+    self := n_of_string "4242"; slots := [] in
+  iter_lines (fun toks ->
+    match toks with
+    | "case" :: _ -> print_endline (String.concat " " toks); reset ()
+    | "m_args" :: a -> args := List.map str_tok a
+    | "m_real" :: l ->
+        real := List.map (fun kv -> match String.split_on_char '=' kv with
+                                    | [a; b] -> (str_tok a, str_tok b) | _ -> failwith "m_real") l
+    | "m_mounted" :: l -> mounted := List.map str_tok l
+    | ["m_flags"; a; b; c; d; e] -> fan := b_ a; minfo := b_ b; mount_ok := b_ c; markfail := int_of_string d; load := b_ e
+    | ["m_stat"; o; u; g] -> stat := (if o = "ok" then Some (n_of_string u, n_of_string g) else None)
+    | ["m_cred"; u; g; n; a; b; c] ->
+        uid := n_of_string u; gid := n_of_string g; groups := int_of_string n; sg := sw_of a; sgid := sw_of b; suid := sw_of c
+    | ["m_self"; p] -> self := n_of_string p
+    | ["m_slot"; po; rd; vers; ex; wr; ovf; pid; fd; eok; wok; tmo] ->
+        let s = { s_poll = (match po with "0" -> PollEvent | "1" -> PollTimeout | "2" -> PollErr | _ -> PollHup);
+                  s_read = (match rd with "0" -> ReadFull | "1" -> ReadShort | _ -> ReadFail);
+                  s_ev = { ev_vers_ok = b_ vers; ev_exec = b_ ex; ev_write = b_ wr; ev_overflow = b_ ovf;
+                           ev_pid = n_of_string pid; ev_fd = n_of_string fd };
+                  s_exec_ok = b_ eok; s_write_ok = b_ wok;
+                  s_timeout = (if tmo = "err" then None else Some (coqz_of_string tmo)) } in
+        slots := !slots @ [s]
+    | ["m_run"] ->
+        let mf = !markfail in
+        let env = { e_args = !args; e_realpath = !real; e_mounted = !mounted; e_fan_init_ok = !fan;
+                    e_mountinfo_ok = !minfo; e_mount_ok = !mount_ok;
+                    e_mark_ok = (fun n -> int_of_nat n <> mf);
+                    e_stat = !stat; e_uid = !uid; e_gid = !gid; e_groups = nat_of_int !groups;
+                    e_setgroups = !sg; e_setgid = !sgid; e_setuid = !suid; e_load_ok = !load;
+                    e_self = !self; e_slots = !slots } in
+        List.iter (fun o ->
+          match o with
+          | OFanInit -> print_endline "faninit"
+          | OMount p -> Printf.printf "mount %s\n" (tok_str p)
+          | OMark (ex, p) -> Printf.printf "mark %c %s\n" (if ex then 'e' else 'w') (tok_str p)
+          | OStat p -> Printf.printf "stat %s\n" (tok_str p)
+          | OSetgroups -> print_endline "setgroups"
+          | OSetgid g -> Printf.printf "setgid %s\n" (string_of_n g)
+          | OSetuid u -> Printf.printf "setuid %s\n" (string_of_n u)
+          | OLoad (cfg, cpl, u, g, n) ->
+              Printf.printf "load %s %d %s %s %d\n" (match cfg with Some c -> tok_str c | None -> "-")
+                (int_of_nat cpl) (string_of_n u) (string_of_n g) (int_of_nat n)
+          | OPoll ms -> Printf.printf "poll %s\n" (string_of_coqz ms)
+          | ORead -> print_endline "read"
+          | OExec (p, f) -> Printf.printf "exec %s %s\n" (string_of_n p) (string_of_n f)
+          | OWrite (p, f) -> Printf.printf "write %s %s\n" (string_of_n p) (string_of_n f)
+          | OClose f -> Printf.printf "close %s\n" (string_of_n f)
+          | OTimeout -> print_endline "timeout"
+          | OExit (c, t) -> Printf.printf "exit %d %s\n" (int_of_nat c) (match t with Some t -> top_id t | None -> "-")
+          | OEnd -> print_endline "end") (main env)
+    | _ -> failwith ("main: bad line: " ^ String.concat " " toks))
